@@ -1,4 +1,5 @@
 import Casm.Model.Assemble
+import Casm.Proofs.StaticMatch
 /-!
 # C08 — the two optimisation switches never change any result
 
@@ -15,8 +16,29 @@ prefix index of `ruledef_map.rs`):
   characters without skipping blanks); `index_complete_false` is the kernel-checked witness,
   and the search attributes an observed difference to F10 only if the model says so.
 
-Static-value optimisation: the switch only guards the three "accept in the first pass and mark
-resolved" branches: `unoptimised_never_marks`.
+Static-value optimisation (the switch guards the three "accept in the first pass, mark resolved
+and never recompute" branches).  What makes those branches harmless is that the analysis
+`is_value_statically_known` / `get_match_statically_known` is *sound*: what it calls statically
+known really does not depend on anything that changes between passes.  That is proved here for
+the model of the analysis and of the evaluator, for all expressions, rules and arguments:
+
+* `known_expression_is_state_independent` — a statically known data element or constant
+  evaluates identically (value, error text, context) in every resolver state, at every address,
+  in every pass, guessing allowed or not;
+* `known_match_keeps_its_result` — a match the analysis calls statically known, once it has
+  resolved to a definite value, resolves to the same value in every later state (later = every
+  statically known symbol that had a value keeps it; anything else — addresses, labels, other
+  symbols, pass flags — may differ);
+* `frozen_instruction_is_what_recomputation_chooses` — under the conditions of the short-cut
+  (every candidate statically known, none unresolved, a single smallest encoding) resolving the
+  instruction again in any later state chooses that same encoding.
+
+Stating these theorems is what exposed findings F30–F34 (each a stale frozen encoding in the
+pinned tree, demonstrated on the real binary and repaired): a parameter named like a constant,
+an argument read in the rule's scope, a block argument assigning a local, symbols named `pc` or
+like a built-in function, a candidate still unresolved when the instruction was frozen.  The one
+side condition left, `ParamsOK` (no rule parameter is *named* `incbin`, `incbinstr` or
+`inchexstr`), is decidable on the rule definitions.
 -/
 namespace Casm.C08
 
@@ -143,5 +165,49 @@ example : noBlankInLeadingLiteral "h a l t".toList = false := by decide
 example : noBlankInLeadingLiteral "halt".toList = true := by decide
 /-- without blanks the index is complete on the witness rules -/
 example : (queryPrefixed haltRules (parsePrefix "halt".toList)).contains (0, 0) = true := by decide
+
+/-! ## the static-value optimisation: soundness of the analysis -/
+
+/-- **C08 (static switch), data elements and constants** -/
+theorem known_expression_is_state_independent (st : Static) (defs1 defs2 : Defs) (ctx1 ctx2 : RCtx) (e : Expr)
+    (hk : staticallyKnown pureP e = true) :
+    resolverEval st defs2 ctx2 {} e = resolverEval st defs1 ctx1 {} e :=
+  pure_static_eval st defs1 defs2 ctx1 ctx2 e hk
+
+/-- **C08 (static switch), one candidate of an instruction** -/
+theorem known_match_keeps_its_result (st : Static) (defsM defs1 defs2 : Defs) (ctx1 ctx2 : RCtx)
+    (rel : SRel defsM defs1 defs2 ctx1 ctx2) (hpar : ParamsOK defsM) (f fk : Nat) (m : IMatch) (v : Value) (c' : ECtx)
+    (hk : matchKnown st.decls defsM ctx1.symCtx fk m = true)
+    (h : resolveMatch st defs1 f ctx1 m {} = .ok (v, c')) (hv : v ≠ .unknown) :
+    resolveMatch st defs2 f ctx2 m {} = .ok (v, c') :=
+  ((resolve_static st defsM defs1 defs2 ctx1 ctx2 rel hpar f).1 fk m {} v c' hk
+    ⟨fun _ _ => rfl, fun _ _ hl _ => by cases hl⟩ h (by cases v <;> first | rfl | exact absurd rfl hv)).1
+
+/-- **C08 (static switch), the frozen instruction** -/
+theorem frozen_instruction_is_what_recomputation_chooses (st : Static) (defsM defs1 defs2 : Defs) (ctx1 ctx2 : RCtx)
+    (rel : SRel defsM defs1 defs2 ctx1 ctx2) (hpar : ParamsOK defsM) (fk : Nat) (cands : List IMatch)
+    (hk : ∀ c ∈ cands, matchKnown st.decls defsM ctx1.symCtx fk c = true)
+    (hd : allDefinite st defs1 ctx1 cands = true)
+    (encs : List (Nat × BI)) (rep : List String)
+    (h1 : resolveEncoding st defs1 evalFuel ctx1 cands {} = .ok (some encs, rep)) (hs : encs.length = 1) :
+    resolveEncoding st defs2 evalFuel ctx2 cands {} = .ok (some encs, []) :=
+  frozen_instruction_sound st defsM defs1 defs2 ctx1 ctx2 rel hpar fk cands hk hd encs rep h1 hs
+
+/-! non-vacuity: `ld {x} => 0x10 @ x`8`; `ld 5` is statically known, `ld lbl` is not (even if a
+    statically known constant is called `x`: finding F30) -/
+def ldRule : Rule :=
+  { pattern := [], exactCount := 0, params := [("x", .unspecified)]
+    expr := .bin .Concat (.lit (.int ⟨0x10, some 8⟩)) (.sliceShort (.lit (.int ⟨8, none⟩)) (.var 0 ["x"])) }
+def ldDefs : Defs := { ruledefs := [⟨false, [ldRule]⟩], symbols := [some { known := true, value := .int ⟨1, none⟩ }] }
+def ldDecls : Decls :=
+  match (SymMgr.new "symbol").declare [] "x" 0 .constant with
+  | .ok (_, m) => { symbols := m }
+  | .error _ => {}
+
+example : matchKnown ldDecls ldDefs [] 64 (.mk 0 0 [.expr (.lit (.int ⟨5, none⟩)) 0 0 []]) = true := by decide
+example : matchKnown ldDecls ldDefs [] 64 (.mk 0 0 [.expr (.var 0 ["lbl"]) 0 0 []]) = false := by decide
+example : matchKnown ldDecls ldDefs [] 64 (.mk 0 0 [.expr (.var 0 ["x"]) 0 0 []]) = true := by decide
+example : staticallyKnown pureP (.bin .Add (.lit (.int ⟨1, none⟩)) (.call (.var 0 ["incbin"]) [.lit (.str "f".toList .utf8)])) = true := by decide
+example : staticallyKnown pureP (.var 0 ["x"]) = false := by decide
 
 end Casm.C08
